@@ -79,6 +79,11 @@ function elementKinds() {
     ['worklet', () => v([A.worklet('w-x', 'f')])],
     ['generic', () => v([A.generic('g-h', 'c')])],
     ['extra-attr', () => v([A.extraAttr('e-f', 'v')])],
+    ['component:attr', () => el('k', [A.plain('p', X)])],
+    ['component:model', () => el('k', [A.model('val', X)])],
+    ['component:attr+model', () => el('k', [A.plain('p', Y), A.model('val', X)])],
+    ['component:model-member', () => el('k', [A.model('val', E(M.mem(id('a'), 'b')))])],
+    ['component:mixed', () => el('k', [A.plain('p', ['a', X])])],
     ['attrs:several', () => v([A.plain('p', X), A.cls('c'), A.id('i'), A.dataHyphen('k', Y), A.event('bind', 'tap', 'f')])],
   ]
   // every event prefix x every value form (the flags travel separately from the handler), on an element and on a <slot>
@@ -93,6 +98,21 @@ function elementKinds() {
   // the other families x the value forms that the plain cases above leave out
   const fam = [['data-', (val) => A.dataHyphen('k', val)], ['data:', (val) => A.dataColon('k', val)], ['mark', (val) => A.mark('m', val)], ['model', (val) => A.model('v', val)], ['change', (val) => A.change('p', val)], ['id', (val) => A.id(val)], ['slot-attr', (val) => A.slot(val)], ['class', (val) => A.cls(val)], ['style', (val) => A.style(val)]]
   for (const [fname, f] of fam) for (const [fn, fv] of [['mixed', ['a', X, 'b']], ['two-bindings', [X, Y]], ['member-binding', E(M.mem(id('a'), 'b'))]]) out.push([`${fname}-x:${fn}`, () => v([f(fv)])])
+  // names in the families that normalise them (dash to camel): every name of up to 4 characters over {a, B, -, 2, _} that
+  // starts with a letter and does not end in a hyphen... including hyphens followed by a digit, an underscore or another hyphen
+  const nameAlphabet = ['a', 'B', '-', '2', '_']
+  const names = []
+  const recN = (cur) => { if (cur.length >= 2) names.push(cur); if (cur.length === 4) return; for (const ch of nameAlphabet) recN(cur + ch) }
+  recN('a')
+  for (const nm of names) {
+    // (consecutive hyphens are left out: the compiler's dash_to_camel gives aA for a--a, the runtime's dashToCamelCase a-a;
+    //  no document says which one is meant)
+    if (nm.endsWith('-') || nm.includes('--')) continue
+    // (change: sits on an element of its own: a listener for a property that is also bound on the same element is called by
+    //  the real runtime, and the pool values are not functions)
+    out.push([`name-x:${nm}`, () => v([A.dataHyphen(nm, X), A.model(nm, Y), A.worklet(nm, 'w'), A.mark(nm, 's'), A.dataColon('q' + nm, 's')], [v([A.change(nm, X)])])])
+    out.push([`name-x:${nm}@slot`, () => slot('n', [[nm, X]])])
+  }
   // a <slot> element with each family it accepts
   for (const [fname, f] of [['id', (val) => A.id(val)], ['data-', (val) => A.dataHyphen('k-l', val)], ['data:', (val) => A.dataColon('kL', val)], ['mark', (val) => A.mark('m', val)]]) {
     for (const [fn, fv] of [['static', 's'], ['binding', X], ['mixed', ['a', X]]]) out.push([`slot-x:${fname}:${fn}`, () => slot(fn === 'static' ? undefined : 'n', [['v', Y]], { attrs: [f(fv)] })])
@@ -134,9 +154,12 @@ function controlKinds() {
     ['for:key-this', (b) => [el('v', [], [...b, text(E(id('item')))], { wxFor: { list: LIST, key: '*this' } })]],
     ['for+if', (b) => [el('v', [], [...b, text(E(id('item')))], { wxFor: { list: LIST }, wxIf: E(id('item')) })]],
     ['for+if:block', (b) => [block([...b, text(E(id('index')))], { wxFor: { list: LIST }, wxIf: E(id('index')) })]],
+    ['for:spread-list', (b) => [el('v', [], [...b, text(E(M.mem(id('item'), 'v')), E(id('index')))], { wxFor: { list: E(M.arr([{ spread: id('list') }, M.obj([{ key: 'v', value: id('x') }])])) } })]],
     ['for:literal-list', (b) => [el('v', [], [...b, text(E(id('item')))], { wxFor: { list: E(M.arr([id('x'), id('y')])) } })]],
     ['for:number-literal', (b) => [el('v', [], [...b, text(E(id('index')))], { wxFor: { list: E(M.lit('3')) } })]],
     ['for:static-string', (b) => [el('v', [], [...b, text(E(id('item')))], { wxFor: { list: 'ab' } })]],
+    ['for:nested-same-names', (b) => [el('v', [A.dataColon('i', E(id('index')))], [el('w', [A.dataColon('i', E(id('index')))], [...b, text(E(id('index')), ':', E(id('item')))], { wxFor: { list: E(id('item')) } })], { wxFor: { list: E(M.arr([id('list'), M.arr([id('x'), id('y')])])) } })]],
+    ['for:nested-same-renamed', (b) => [block([block([...b, text(E(id('r')), '/', E(id('q')))], { wxFor: { list: E(id('r')), item: 'r', index: 'q' } })], { wxFor: { list: E(M.arr([id('list'), M.arr([id('x')])])), item: 'r', index: 'q' } })]],
     ['for:nested', (b) => [el('v', [], [el('w', [], [...b, text(E(id('j')), E(id('item')))], { wxFor: { list: E(id('item')), item: 'j' } })], { wxFor: { list: LIST } })]],
     ['template:def+is', (b) => [tdef('t', [...b, text(E(id('x')))]), tis('t', M.obj([{ key: 'x', value: id('y') }]))]],
     ['template:is-no-data', (b) => [tdef('t', [...b, text(E(id('x')))]), tis('t')]],
@@ -210,6 +233,9 @@ function exprForms() {
     ['cond-member', M.mem(M.grp(M.cond(c, a, id('b'))), 'b')],
     ['cond-of-cond', M.cond(M.grp(M.cond(c, x, y)), y, x)],
     ['nullish-operand', M.bin('+', M.grp(M.bin('??', x, y)), M.lit("'s'"))],
+    ['array-spread', M.mem(M.arr([{ spread: id('list') }, x]), 'length')],
+    ['array-spread-index', M.idx(M.arr([{ spread: M.arr([x]) }, { spread: id('list') }, y]), M.lit('1'))],
+    ['array-after-spread', M.idx(M.arr([{ spread: M.arr([M.lit('1')]) }, M.mem(a, 'b')]), M.lit('1'))],
     ['plus-right-group', M.bin('+', x, M.grp(M.bin('+', y, M.lit('1'))))],
   ]
 }
@@ -391,12 +417,14 @@ function corpus(deep) {
   const out = []
   const push = (name, main, files, scripts) => out.push({ name, main, files: files || {}, scripts: scripts || {} })
   const leaves = leafKinds()
-  const els = elementKinds()
+  const allEls = elementKinds()
+  // (the name sweep is not crossed with parents: a name is normalised the same way wherever the element sits)
+  const els = allEls.filter((e) => !e[0].startsWith('name-x'))
   const wraps = wrappable()
   const ctrls = controlKinds()
   const multi = multiFileKinds()
   for (const [n, f] of leaves) push(n, [f()])
-  for (const [n, f] of els) push(n, [f()])
+  for (const [n, f] of allEls) push(n, [f()])
   for (const [cn, cf] of ctrls) for (const [wn, wf] of wraps) push(`${cn}(${wn})`, cf(wf()))
   for (const [mn, mf] of multi) for (const [wn, wf] of wraps) { const m = mf(wf()); push(`${mn}(${wn})`, m.main, m.files, m.scripts) }
   // sibling pairs and parent > child
